@@ -54,3 +54,27 @@ PROPS["C07"] = dict(
         assumptions=["positions are compared as doubles, exactly", "axis coordinates are those the library reports (positionAt/axis/ticks), cross-checked against offset+i*interval"],
     ),
 )
+
+PROPS["C18"] = dict(
+    level="exploration",
+    budget_s=dict(quick=120, thorough=900),
+    parts=[dict(name="units", bin="C18", flavour="plain")],
+    manifest=dict(
+        engine="E2", design_ref="5 / C18",
+        technique="exhaustive grid over all prefix x base-unit x power strings (pairs, triples) against 10^(power*(ea-eb)); retrieval invariance grid",
+        text="Unit scaling is a pure function of two strings over a finite alphabet (21 prefixes x 31 base units x 7 powers = 4557 units). "
+             "All 95k same-base pairs are checked for the exact factor, reciprocity and symmetry, all 1.9M same-base triples for "
+             "composition, and cross-base / cross-power pairs for rejection (quick: prefixes {none,m,k}: 0.4M pairs; thorough: all 20M). "
+             "Complete over that alphabet.",
+        note="Factors compared with relative tolerance 1e-12 (any realistic defect is off by a factor >= 10). A missing power and an explicit ^1 "
+             "are not compared with each other. The base-unit list is transcribed from the library and validated through isSIUnit."),
+    evidence=dict(
+        keys=dict(evaluations=("sum", [("count", "unit_calls"), ("count", "law_checks")]),
+                  distinct_nontrivial=("distinct", "outcomes")),
+        rule="units = prefix? base power? over 21 prefixes (incl. none) x 31 bases x {none,^1,^2,^3,^-1,^-2,^-3}; same-base groups: all "
+             "441 ordered pairs and 9261 triples each; cross groups: every pair of units with differing base or power (quick: prefixes none/m/k); "
+             "16 non-SI strings against a sub-grid. distinct_nontrivial = distinct (power, exponent difference, outcome) / (rejection reason, outcome) tuples.",
+        bound=dict(quick="all same-base pairs+triples; cross-base pairs over 3 prefixes", thorough="all same-base pairs+triples; all cross-base pairs"),
+        assumptions=["relative tolerance 1e-12 on factors", "base-unit list transcribed from src/util/util.cpp and validated by isSIUnit"],
+    ),
+)
